@@ -81,7 +81,7 @@ CHECKS = {
  'C17': dict(level='exploration', design='DESIGN.md §6 C17',
    technique=RM + 'malformed patterns fed to the real pattern parser/builder/analyzer through a bounds-monitoring buffer; generated programs run through the constant evaluators of g++ and clang++ and constructed at run time',
    text='Strings broken in the ways the property names must be refused by parser, builder and size analyzer without reading outside the pattern; regex_term/regex::expr with such patterns and grammars naming undeclared symbols must not be constant expressions and must throw at run time.',
-   note='must-reject classes are only those named by the property; other strings give no acceptance verdict'),
+   note='must-reject classes are only those named by the property; a set ending in a range without an end character is refused or must get the automaton of the set-ends-at-first-bracket reading; other strings give no acceptance verdict'),
 }
 PENDING = {}
 def main():
